@@ -85,10 +85,14 @@ def main():
     meta["caught_by"] = sorted(t for t, r in results.items() if r["rc"] == 1 and r["violations"] > 0)
     out = os.path.join(ROOT, "seeded", sid)
     os.makedirs(out, exist_ok=True)
-    shutil.copy(patch, os.path.join(out, "patch.diff"))
-    shutil.copy(orig_demo, os.path.join(out, "demo.py"))
+    if os.path.abspath(patch) != os.path.abspath(os.path.join(out, "patch.diff")):
+        shutil.copy(patch, os.path.join(out, "patch.diff"))
+    if os.path.abspath(orig_demo) != os.path.abspath(os.path.join(out, "demo.py")):
+        shutil.copy(orig_demo, os.path.join(out, "demo.py"))
     for extra in ("stubs", "c02check.py"):
         src = os.path.join(os.path.dirname(os.path.abspath(orig_demo)), extra)
+        if os.path.abspath(src) == os.path.abspath(os.path.join(out, extra)):
+            continue
         if os.path.isdir(src):
             shutil.copytree(src, os.path.join(out, extra), dirs_exist_ok=True)
         elif os.path.isfile(src):
